@@ -210,7 +210,14 @@ func firstLine(s string) string {
 // lists the property under detected_by in its meta.json. The patch is applied to copies of
 // the touched files and loaded as an overlay; /repo is not touched.
 func runSeeds(exe string, def *PropDef, repo, vdir string) []mutantResult {
-	metas, _ := filepath.Glob(filepath.Join(vdir, "seeded", "*", "meta.json"))
+	out := runSeedDir(exe, def, repo, vdir, "seeded", false)
+	// behaviour-preserving refactorings from independent sub-agents: this property's rules must stay silent on every one
+	out = append(out, runSeedDir(exe, def, repo, vdir, "seeded-equivalent", true)...)
+	return out
+}
+
+func runSeedDir(exe string, def *PropDef, repo, vdir, sub string, equivalent bool) []mutantResult {
+	metas, _ := filepath.Glob(filepath.Join(vdir, sub, "*", "meta.json"))
 	sort.Strings(metas)
 	var out []mutantResult
 	var mu sync.Mutex
@@ -227,7 +234,7 @@ func runSeeds(exe string, def *PropDef, repo, vdir string) []mutantResult {
 			DetectedBy map[string][]string `json:"detected_by"`
 			Files      []string            `json:"files_changed"`
 		}
-		if json.Unmarshal(b, &meta) != nil || len(meta.DetectedBy[def.ID]) == 0 {
+		if json.Unmarshal(b, &meta) != nil || !equivalent && len(meta.DetectedBy[def.ID]) == 0 {
 			continue
 		}
 		wg.Add(1)
@@ -236,6 +243,9 @@ func runSeeds(exe string, def *PropDef, repo, vdir string) []mutantResult {
 			sem <- struct{}{}
 			defer func() { <-sem }()
 			res := mutantResult{ID: "seed:" + meta.ID, Why: "seeded change " + meta.ID + " (independent sub-agent), expected to be reported by " + def.ID}
+			if equivalent {
+				res = mutantResult{ID: "equiv:" + meta.ID, Why: "behaviour-preserving refactoring " + meta.ID + " (independent sub-agent): the rules must stay silent"}
+			}
 			tmp, err := os.MkdirTemp("", "prunnerlint-seed-*")
 			if err != nil {
 				return
@@ -305,9 +315,14 @@ func runSeeds(exe string, def *PropDef, repo, vdir string) []mutantResult {
 					res.Reported = append(res.Reported, ob.Rule+" @ "+ob.Construct)
 				}
 			}
-			if len(res.Reported) > 0 {
+			switch {
+			case equivalent && len(res.Reported) == 0:
+				res.Status = "silent(ok)"
+			case equivalent:
+				res.Status = "false-alarm"
+			case len(res.Reported) > 0:
 				res.Status = "killed"
-			} else {
+			default:
 				res.Status = "survived"
 			}
 			if len(res.Reported) > 4 {
